@@ -412,9 +412,19 @@ Definition rd_ok (c : rdcase) : bool := (rd_races c =? 0)%nat && (rd_died c =? 0
       order of the same call goes through the limiter like a first attempt). *)
 
 Record e2case := E2 {
+  e2_cfg : Z;         (* issuer configuration: 0 TestCA is another directory, 1 TestCA = CA, 2 TestCA empty *)
   e2_n : nat; e2_w : Z; e2_calls : nat; e2_retries : nat; e2_calls2 : nat;
-  e2_arr : list Z; e2_arr2 : list Z; e2_retry : list Z; e2_failed : nat
+  e2_first : list Z;  (* arrivals of the orders of the first attempts (attributed by name at the CA) *)
+  e2_arr : list Z;    (* + the production orders that follow a retry's success at a distinct test CA *)
+  e2_arr2 : list Z; e2_retry : list Z; e2_failed : nat
 }.
+
+(** orders the code sends through the limiter of the CA + account: every first attempt, in
+    every configuration; of a retry (attempts = 1) only the production order that follows its
+    success at a DISTINCT test CA (doIssue with attempts 0) — with TestCA = CA or empty the
+    retry's single order is not throttled *)
+Definition e2_limited (c : e2case) : nat :=
+  (e2_calls c + (if (e2_cfg c =? 0)%Z then e2_retries c else 0))%nat.
 
 (** admission instants the model gives [c] waiters that arrive together at [t0] at a fresh limiter *)
 Fixpoint burst_times (c : nat) (s : state) (t0 : Z) : list Z :=
@@ -444,8 +454,8 @@ Fixpoint arrivals_match (model obs : list Z) : bool :=
 
 Definition e2_model_ok (c : e2case) : bool :=
   (e2_failed c =? 0)%nat &&
-  (* a retry succeeds at the test CA at once and then orders from production through the same limiter *)
-  arrivals_match (e2_model_times (e2_n c) (e2_w c) (e2_calls c + e2_retries c)) (e2_arr c) &&
+  arrivals_match (e2_model_times (e2_n c) (e2_w c) (e2_limited c)) (e2_arr c) &&
+  (length (e2_first c) =? e2_calls c)%nat &&
   arrivals_match (e2_model_times (e2_n c) (e2_w c) (e2_calls2 c)) (e2_arr2 c) &&
   (length (e2_retry c) =? e2_retries c)%nat && forallb (fun t => (0 <=? t) && (t <=? late)) (e2_retry c).
 
@@ -460,8 +470,9 @@ Fixpoint arrivals_spaced (n : nat) (w : Z) (j : nat) (l : list Z) : bool :=
 Definition e2_spec_ok (c : e2case) : bool :=
   match e2_n c with
   | O => true
-  | n => arrivals_spaced n (e2_w c) 0 (e2_arr c) && arrivals_spaced n (e2_w c) 0 (e2_arr2 c) &&
-         (length (e2_arr c) <=? e2_calls c + e2_retries c)%nat && (length (e2_arr2 c) <=? e2_calls2 c)%nat
+  | n => (* every first attempt passes the limiter of its CA + account, whatever TestCA is *)
+         arrivals_spaced n (e2_w c) 0 (e2_first c) && arrivals_spaced n (e2_w c) 0 (e2_arr2 c) &&
+         (length (e2_first c) <=? e2_calls c)%nat && (length (e2_arr2 c) <=? e2_calls2 c)%nat
   end.
 
 (** * Wire *)
@@ -484,8 +495,9 @@ Definition get_stcase : dec stcase :=
    ret (ST n0 f sz n w k d cr pr fr a st))%Z.
 Definition get_rdcase : dec rdcase := (r <- get_nat ;; d <- get_nat ;; ret (RD r d))%Z.
 Definition get_e2case : dec e2case :=
-  (n <- get_nat ;; w <- get_z ;; c <- get_nat ;; r <- get_nat ;; c2 <- get_nat ;;
-   a <- get_zlist ;; a2 <- get_zlist ;; ra <- get_zlist ;; f <- get_nat ;; ret (E2 n w c r c2 a a2 ra f))%Z.
+  (cfg <- get_z ;; n <- get_nat ;; w <- get_z ;; c <- get_nat ;; r <- get_nat ;; c2 <- get_nat ;;
+   fa <- get_zlist ;; a <- get_zlist ;; a2 <- get_zlist ;; ra <- get_zlist ;; f <- get_nat ;;
+   ret (E2 cfg n w c r c2 fa a a2 ra f))%Z.
 Definition get_case : dec anycase :=
   (kind <- get_z ;;
    if kind =? 0 then (c <- get_tcase ;; ret (AHistory c))
@@ -514,6 +526,6 @@ Definition explain_line (l : list Z) : list Z :=
                         | Some (pr, a) => [if pr then 1 else 0; Z.of_nat a]
                         | None => [-1] end
   | Some (ARace c) => [Z.of_nat (rd_races c); Z.of_nat (rd_died c)]
-  | Some (AE2E c) => e2_model_times (e2_n c) (e2_w c) (e2_calls c + e2_retries c)
+  | Some (AE2E c) => e2_model_times (e2_n c) (e2_w c) (e2_limited c)
   | None => []
   end.
